@@ -508,6 +508,7 @@ func init() {
 		e.assume(st, c.And(bvle(c, c.BVLit64(0, 64), pos0), bvle(c, pos0, cnt)))
 		wcnt := e.writerCount(st, wkey)
 		errv, okc := e.maybeError(st, errorType(), "writeto")
+		e.inMemoryDest(st, w, okc)
 		k := c.Fresh("writeto.k", smt.BV(64))
 		e.assume(st, c.And(bvle(c, c.BVLit64(0, 64), k), bvle(c, bvadd(c, pos0, k), cnt), c.Implies(okc, c.Eq(bvadd(c, pos0, k), cnt))))
 		e.ghostSet(st, gPos, key, bvadd(c, pos0, k))
